@@ -403,6 +403,10 @@ def run(rep, ctx):
     with rep.guard("R16.5"):
         from . import shared as _sh
         _sh.frames(rep, ctx.model, "R16.5")
+    rep.rule("R16.6", "no function keeps results in module-level state or functools caches (answers do not depend on what the process analysed before)")
+    with rep.guard("R16.6"):
+        from .. import symrules as _SRms
+        _SRms.module_state(rep, ctx.model, "R16.6")
     rep.floor("R16.1", 5)
     rep.floor("R16.2", 2)
     rep.floor("R16.3", 7)
